@@ -79,7 +79,7 @@ theorem c04_install_mono (s : Sys) (op : Op) (i : Nat) (b : AuthId)
   obtain ⟨n, q, cap, started, nodes, owners⟩ := s
   have keep : ∀ (st : Bool) (ow : List (AuthId × Nat)), ownerAuth ⟨n, q, cap, st, nodes, ow⟩ i = some b := fun _ _ => h
   cases op with
-  | cfg n' q' cap' => simp [resets] at hr
+  | cfg n' q' cap' fr' => simp [resets] at hr
   | crash j =>
     simp only [resets, beq_eq_false_iff_ne, ne_eq] at hr
     simp only [step]
